@@ -14,6 +14,8 @@ def explore(run, lean):
                          "lifo (12 configurations, exhaustive): the object is stopped, X1 and X2 are posted, PING is published: lifo => "
                          "[PING, X1, X2], fifo => [X1, X2, PING]")
     run.assumptions.append("queue.PriorityQueue.get returns the minimum for FabricEvent.__lt__; GIL atomicity of each Queue primitive")
+    ROUND6_RULE = '; queue_type given as equal strings that are not the literal (built at run time, JSON, str subclass, read from a stream)'
+    run.extra["rule"] += ROUND6_RULE
 
 
 def replay(case):
